@@ -108,6 +108,11 @@ def run_case(seed):
     img = diskimg.image_of(pf)
     path = core.scratch_dir(f"c05_{seed}")
     diskimg.write_image(img, path)
+    rl = random.Random(seed * 389 + 1)
+    if rl.random() < 0.25:
+        # level directories / binary files of the input that are symbolic links to differently named targets
+        pf.meta['symlinks'] = gen.symlink_parts(path, core.scratch_dir(f"c05_{seed}_store"), rl)
+    count(f"symbolic links inside the input={'symlinks' in pf.meta}")
     img_sx = diskimg.image_sx(img)
     # the abstract plotfile of the theorems (C05_tool quantifies over these)
     pf_sx = [c02.gheader_sx(pf),
